@@ -1,5 +1,5 @@
 /-
-  `GetMountAndSubmounts` after fix 05db66c (Model: `Mountinfo.covers`, `hasCoveredMount`,
+  `GetMountAndSubmounts` after fix e546b99 (Model: `Mountinfo.covers`, `hasCoveredMount`,
   `inTreeOrder`; `Layers.getMountAndSubmounts`): the path-sorted list of the mounts at/below a
   path, re-ordered along the mount tree exactly when a listed mount covers a listed sibling.
   * `inTreeOrder_perm`, `getMountAndSubmounts_perm`, `mem_getMountAndSubmounts`: in every case a
